@@ -833,8 +833,12 @@ pub fn gen_history(r: &mut Rng, tier: Tier, mode: Mode) -> Case {
                     Op::SetTargets(pick_nodes(r, n, 4))
                 }
             }
-            6 if n > 0 => {
+            6 => {
+                // also on a diagram without nodes (then every identifier is out of range)
                 let mut d = pick_nodes(r, n, 3);
+                if n == 0 && r.chance(1, 2) {
+                    d.push(r.below(2));
+                }
                 if !d.is_empty() && r.chance(1, 4) {
                     let x = d[0];
                     d.push(x); // duplicate
@@ -850,9 +854,10 @@ pub fn gen_history(r: &mut Rng, tier: Tier, mode: Mode) -> Case {
                 }
                 Op::DeleteNodes(d)
             }
-            7 if ne > 0 => {
-                let mut d: Vec<usize> = (0..r.below(3)).map(|_| r.below(ne)).collect();
-                if r.chance(1, 8) {
+            7 => {
+                // also on a diagram without hyperedges (then every identifier is out of range)
+                let mut d: Vec<usize> = if ne == 0 { vec![] } else { (0..r.below(3)).map(|_| r.below(ne)).collect() };
+                if r.chance(1, 8) || (ne == 0 && r.chance(1, 2)) {
                     d.push(ne + r.below(2));
                 }
                 if !d.is_empty() && r.chance(1, 4) {
